@@ -38,6 +38,7 @@ type Clause struct {
 type LoopContract struct {
 	Path       string
 	Invariants []*Clause
+	Steps      []*Clause
 	Decreases  *Clause
 	Modifies   []string
 }
@@ -52,6 +53,7 @@ type FuncContract struct {
 	Inline   bool
 	Trusted  bool // contract assumed, body not verified (listed as assumption)
 	NoSafety bool
+	PanicFree bool
 	Budget   int // solver seconds per obligation (0 = tier default)
 	FrameOnly bool // only frame/initialisation obligations (no SMT obligations are generated)
 	Requires []*Clause
@@ -70,6 +72,11 @@ type AssertClause struct {
 	Var string
 	Occ int
 	Cl  *Clause
+}
+
+// hasSpec: does the contract say anything a caller could use or must establish?
+func (fc *FuncContract) hasSpec() bool {
+	return len(fc.Requires) > 0 || len(fc.Ensures) > 0 || fc.Panics != nil || fc.Pure || fc.Trusted
 }
 
 func (fc *FuncContract) Key() string {
@@ -98,7 +105,7 @@ type Contracts struct {
 	File    string
 }
 
-var keywordRe = regexp.MustCompile(`^(spec|axiom|lemma|func|props|tier|arith|pure|inline|trusted|nosafety|requires|ensures|expect|panics|modifies|loop|ghost|assert|replaces|initfields|frameonly|budget)\b`)
+var keywordRe = regexp.MustCompile(`^(spec|axiom|lemma|func|props|tier|arith|pure|inline|trusted|nosafety|requires|ensures|expect|panics|modifies|loop|ghost|assert|replaces|initfields|frameonly|budget|panicfree)\b`)
 var labelRe = regexp.MustCompile(`^\[([A-Za-z0-9_.\-]+)\]\s*`)
 
 func (c *Contracts) newClause(kind, text string, line int) *Clause {
@@ -225,6 +232,11 @@ func ParseContracts(path string) (*Contracts, error) {
 				cur.NoSafety = true
 			case "frameonly":
 				cur.FrameOnly = true
+			case "panicfree":
+				// only panic-relevant safety obligations: integer arithmetic wraps as in Go, float->int
+				// conversion is implementation-defined but never panics
+				cur.Arith = "wrap"
+				cur.PanicFree = true
 			case "budget":
 				fmt.Sscanf(rest, "%d", &cur.Budget)
 			case "ghost":
@@ -275,6 +287,11 @@ func ParseContracts(path string) (*Contracts, error) {
 					cl := c.newClause("invariant", r3, it.line)
 					cl.Loop = lp
 					lc.Invariants = append(lc.Invariants, cl)
+				case "step":
+					// relation between the state at the start and at the end of one iteration
+					cl := c.newClause("step", r3, it.line)
+					cl.Loop = lp
+					lc.Steps = append(lc.Steps, cl)
 				case "decreases":
 					cl := c.newClause("decreases", r3, it.line)
 					cl.Loop = lp
